@@ -57,6 +57,20 @@ GRAPH_AX = [
            patterns=[Desc(Store(pm, s_, null), a, x)]),
     ForAll([pm, s_], Implies(Acyc(pm), Acyc(Store(pm, s_, null))), patterns=[Acyc(Store(pm, s_, null))]),
 ]
+# root of a task's tree (lemmas R1none/R1some/R2/root_sub/root_unique/R3a/R3b/R3det of lemmas/Graph.lean); meaningful for acyclic maps
+rootof = Function('rootof', PAR, T.z, T.z)
+r_ = Const('r_', T.z)
+ROOT_AX = [
+    ForAll([pm, x], Implies(And(Acyc(pm), x != null, pm[null] == null), And(insub(pm, rootof(pm, x), x), pm[rootof(pm, x)] == null, rootof(pm, x) != null)), patterns=[rootof(pm, x)]),          # root_sub
+    ForAll([pm, r_, x], Implies(And(Acyc(pm), Desc(pm, r_, x), pm[r_] == null, r_ != null), rootof(pm, x) == r_), patterns=[MultiPattern(Desc(pm, r_, x), rootof(pm, x))]),               # root_unique
+    ForAll([pm, x], Implies(And(Acyc(pm), x != null, pm[x] == null), rootof(pm, x) == x), patterns=[rootof(pm, x)]),                                                                   # R1none
+    ForAll([pm, a, x], Implies(And(Acyc(pm), Desc(pm, a, x)), rootof(pm, x) == rootof(pm, a)), patterns=[MultiPattern(Desc(pm, a, x), rootof(pm, x))]),                                # R2
+    ForAll([pm, x], Implies(And(Acyc(pm), x != null, pm[null] == null), rootof(pm, rootof(pm, x)) == rootof(pm, x)), patterns=[rootof(pm, rootof(pm, x))]),                             # root of a root (stops the R2 / root_sub chain)
+    ForAll([pm, s_, p_, x], Implies(And(_cond(pm, s_, p_), x != null, pm[null] == null), rootof(Store(pm, s_, p_), x) == If(insub(pm, s_, x), rootof(pm, p_), rootof(pm, x))),
+           patterns=[rootof(Store(pm, s_, p_), x)]),                                                                                                                                     # R3a, R3b
+    ForAll([pm, s_, x], Implies(And(Acyc(pm), s_ != null, x != null, pm[null] == null), rootof(Store(pm, s_, null), x) == If(insub(pm, s_, x), s_, rootof(pm, x))),
+           patterns=[rootof(Store(pm, s_, null), x)]),                                                                                                                                   # R3det
+]
 # dependency relation as ghost E : Task -> (Task -> Bool)  (E[x][a]: a is a predecessor of x)
 SET = ArraySort(T.z, BoolSort()); REL = ArraySort(T.z, SET)
 TCp = Function('TCp', REL, T.z, T.z, BoolSort()); AcycP = Function('AcycP', REL, BoolSort()); wit = Function('wit', REL, T.z, SET, T.z)
